@@ -57,6 +57,27 @@ CHECKS.update({
    design_ref="DESIGN.md §3 C08"),
 })
 
+CHECKS.update({
+ "C01": dict(
+   category="exploration",
+   text="The real Tunnel + HttpDownstream + Http1Codec/Http2Codec over in-memory sessions with a registry authenticator and a recording forwarder: 27 Proxy-Authorization cases (absent, valid x3, wrong user/password, token prefix/suffix/case variants, whitespace, other schemes, malformed base64, non-UTF-8, empty, duplicates) x 7 request kinds (CONNECT host/ip, _check, _udp2, _icmp, GET/POST absolute-URI) x {H1, H2}; every request has its own destination so egress (connect / UDP mux / ICMP mux creation) is attributed per request. Seeded HTTP/2 histories of 2-6 interleaved streams with mixed credentials are judged stream by stream (an accepted request must not authorise a later one). SNI-credential configurations go through the real Core::on_tunnel_request with the real DirectForwarder against a loopback canary (accept counter + connect observer).",
+   note="Trusted: the reference decision table in harness/src/props/c01.rs; EITHER zones listed in evidence.assumptions. HTTP/3 not exercised.",
+   technique="runtime monitoring: reference decision function vs observed status/challenge + per-request egress attribution at a recording forwarder and loopback canaries",
+   design_ref="DESIGN.md §3 C01"),
+ "C10": dict(
+   category="fault_enumeration",
+   text="7 methods x 16 authorities (reserved names, case/suffix/port variants, literals with and without port) x 11 outcomes of the outbound connection attempt injected at the forwarder boundary (connected, refused, EMFILE, resolver failure, other, unreachable, timed out, policy 310/311, upstream auth failure, never completes) x {H1, H2} through the real Tunnel; oracle = documented status / X-Warning / X-Adguard-Vpn-Error table, exactly one final response per stream (back-to-back status lines on H1, stream errors on H2), number and destination of connect calls, datagram-mux creation only for CONNECT on _udp2/_icmp. Plus outcomes the sandbox produces for real with the real DirectForwarder on loopback.",
+   note="Trusted: outcome injection at the mirror forwarder boundary (descriptor exhaustion = Io(EMFILE)); HTTP/3 not exercised.",
+   technique="runtime monitoring: fault injection at the forwarder boundary + response-table oracle over scripted H1/H2 clients",
+   design_ref="DESIGN.md §3 C10"),
+ "C18": dict(
+   category="exploration",
+   text="Ping, speedtest and reverse-proxy handlers over in-memory H1/H2 sessions (directly, as an SNI-selected host gets them, and through the main host's HttpDemux markers) with credentials configured and never supplied: ping = 200/empty/no egress; downloads = exact N x 2^20 zero bytes under four client read patterns, 400 around the bounds (N=0/101, case, prefixes, overflow); uploads = consumed then 200, 400 beyond 120 MiB / wrong path / wrong method / malformed length; reverse proxy = real loopback origin under both values of the egress policy, with the client trying to steer Host: origin must receive the HTTP/1.1 request with X-Original-Protocol, response and later bytes relayed both ways.",
+   note="Trusted: tokio duplex + h2 client; HTTP/3 variants not exercised. L=0 and numeric spellings 01/+1 are EITHER.",
+   technique="runtime monitoring: byte-counting client + recording origin/forwarder against the documented behaviour table",
+   design_ref="DESIGN.md §3 C18"),
+})
+
 NOT_YET = "check not built yet in this session (designed in DESIGN.md §3; harness work in progress)"
 
 def main():
